@@ -845,10 +845,154 @@ def rand_hybrid(rng, family=None):
     return {"N": N, "cmds": cmds}
 
 
+def inverse_cmds(cmds):
+    """Spec of the inverse of a Gaussian sub-circuit: reversed, gates daggered, matrices inverted."""
+    out = []
+    for n, ps, ms, d in reversed(cmds):
+        if n == "Interferometer":
+            out.append([n, [mat_to_json(mat_from_json(ps[0]).conj().T)], ms, False])
+        elif n == "GaussianTransform":
+            out.append([n, [mat_to_json(np.linalg.inv(mat_from_json(ps[0]).real))], ms, False])
+        else:
+            out.append([n, ps, ms, not d])
+    return out
+
+
+def rand_gaussian_sub(rng, modes, style=None):
+    """A displacement-free Gaussian sub-circuit G on `modes` (list), as spec commands."""
+    k = len(modes)
+    style = style or rng.choice(["interferometer", "bs-chain", "s2", "mixed", "mixed", "local"])
+    if style == "interferometer" or (k == 1 and style in ("bs-chain", "s2")):
+        ms = list(modes)
+        rng.shuffle(ms)
+        return [["Interferometer", [mat_to_json(rand_unitary(rng, k, rng.choice(["haar", "haar", "real", "perm"])))], ms, False]]
+    if style == "bs-chain":
+        pairs = [rng.sample(modes, 2) for _ in range(rng.randint(1, 4))]
+        return [["BSgate", [draw_param(rng, "a"), draw_param(rng, "a")], pr, rng.random() < 0.2] for pr in pairs]
+    if style == "s2":
+        pairs = [rng.sample(modes, 2) for _ in range(rng.randint(1, 2))]
+        return [["S2gate", [round(rng.uniform(0.1, 0.6), 3), draw_param(rng, "a")], pr, rng.random() < 0.3] for pr in pairs]
+    if style == "local":
+        return [rand_cmd(rng, [m], {"Rgate": GU_PRIMS["Rgate"], "Sgate": GU_PRIMS["Sgate"], "Pgate": GU_DECOMP["Pgate"],
+                                    "Fouriergate": GU_DECOMP["Fouriergate"]}, 0.2) for m in modes for _ in range(rng.randint(0, 2))] or \
+               [["Rgate", [0.7], [modes[0]], False]]
+    table = {k_: v for k_, v in {**GU_PRIMS, **GU_DECOMP}.items() if k_ not in ("Dgate", "Xgate", "Zgate")}
+    return [rand_cmd(rng, modes, table, 0.2, max_mat=min(3, k)) for _ in range(rng.randint(1, 4))]
+
+
+def rand_displacements(rng, modes):
+    out = []
+    for m in modes:
+        kind = rng.choice(["Dgate", "Dgate", "Xgate", "Zgate"])
+        if kind == "Dgate":
+            out.append(["Dgate", [round(rng.uniform(0.2, 1.2), 3), draw_param(rng, "a")], [m], rng.random() < 0.15])
+        else:
+            out.append([kind, [rng.choice([-1, 1]) * round(rng.uniform(0.2, 1.0), 3)], [m], rng.random() < 0.15])
+    rng.shuffle(out)
+    return out
+
+
+def conj_block(rng, used, style=None, ndisp=None, subset=None):
+    """G ; displacements ; G^-1 : net symplectic = identity on the modes of G, non-zero net displacement.
+    With `subset`, G lives on a proper subset and other Gaussian gates act on the remaining modes, so the net
+    symplectic is the identity only on a subset of the block's modes."""
+    k = len(used)
+    if subset is None:
+        subset = k >= 2 and rng.random() < 0.35
+    A = sorted(rng.sample(used, rng.randint(1, k - 1))) if subset else list(used)
+    G = rand_gaussian_sub(rng, A, style)
+    dm = rng.sample(used, ndisp if ndisp else rng.randint(1, k))
+    blk = G + rand_displacements(rng, dm) + inverse_cmds(G)
+    if subset:
+        B = [m for m in used if m not in A]
+        extra = rand_gaussian_sub(rng, B, rng.choice(["local", "mixed", "interferometer"]))
+        for c in extra:  # acts on other modes only, so it may sit anywhere
+            blk.insert(rng.randrange(len(blk) + 1), c)
+    return blk
+
+
+def rand_conj_circuit(rng, placement=None, n=None, contiguous=None):
+    """Circuits built around identity-symplectic blocks with displacement, alone or next to non-Gaussian gates."""
+    n = n or rng.randint(1, 5)
+    if contiguous if contiguous is not None else rng.random() < 0.7:
+        N, used = n, list(range(n))
+    else:
+        used = sorted(rng.sample(range(0, 20), n))
+        N = max(used) + 1 + rng.choice([0, 2])
+    placement = placement or rng.choice(["alone", "alone", "pre", "post", "between", "two-blocks"])
+    ng = lambda: [rand_cmd(rng, used, NONGAUSS, dagger_prob=0.1) for _ in range(rng.randint(1, 2))]
+    cmds = conj_block(rng, used)
+    if placement == "pre":
+        cmds = ng() + cmds
+    elif placement == "post":
+        cmds = cmds + ng()
+    elif placement == "between":
+        cmds = ng() + cmds + ng()
+    elif placement == "two-blocks":
+        cmds = cmds + ng() + conj_block(rng, used)
+    return {"N": N, "cmds": cmds}
+
+
+def conj_sweep():
+    """Small deterministic sweep (same circuits on every run): G;D..D;G^-1 for every G style, 1-5 displaced
+    modes, alone / after / before / between non-Gaussian gates, contiguous and gapped registers."""
+    rng = _random.Random(20260926)
+    out = []
+    for n in (2, 3, 4, 5):
+        for style in ("interferometer", "bs-chain", "s2", "mixed"):
+            for nd in sorted({1, n - 1, n}):
+                for placement in ("alone", "pre", "post"):
+                    used = list(range(n)) if (n + nd) % 2 else sorted(rng.sample(range(0, 12), n))
+                    blk = conj_block(rng, used, style=style, ndisp=nd, subset=(placement == "pre" and n >= 3 and nd == n))
+                    ngc = [rand_cmd(rng, used, NONGAUSS, dagger_prob=0.0)]
+                    cmds = blk if placement == "alone" else (ngc + blk if placement == "pre" else blk + ngc)
+                    out.append({"N": max(used) + 1, "cmds": cmds})
+    return out
+
+
 def sf_frame(e):
     tb = traceback.extract_tb(e.__traceback__)
     fr = [f for f in tb if "/strawberryfields/compilers/" in f.filename]
     return fr[-1].name if fr else "?"
+
+
+class CompileTimeout(Exception):
+    pass
+
+
+MERGE_TIME_LIMIT = 20  # seconds for one gaussian_merge compile of a <= 15-command circuit (normally milliseconds)
+
+
+def compile_merge_observed(prog):
+    """prog.compile(compiler='gaussian_merge') under a time limit, recording what the inner
+    GaussianUnitary.compile calls returned (to tell WHICH list was empty when an IndexError comes out)."""
+    import signal
+    import strawberryfields.compilers.gaussian_merge as gm
+    inner = []
+    orig = gm.GaussianUnitary
+
+    class Recorder(orig):
+        def compile(self, seq, registers):
+            out = super().compile(seq, registers)
+            inner.append([c.op.__class__.__name__ for c in out])
+            return out
+
+    def on_alarm(signum, frame):
+        raise CompileTimeout()
+    gm.GaussianUnitary = Recorder
+    old = signal.signal(signal.SIGALRM, on_alarm)
+    signal.alarm(MERGE_TIME_LIMIT)
+    try:
+        with warnings.catch_warnings():
+            warnings.simplefilter("ignore")
+            return prog.compile(compiler="gaussian_merge"), inner
+    except Exception as e:
+        e._inner = inner
+        raise
+    finally:
+        signal.alarm(0)
+        signal.signal(signal.SIGALRM, old)
+        gm.GaussianUnitary = orig
 
 
 def check_merge_case(ctx, spec, report=True):
@@ -858,9 +1002,11 @@ def check_merge_case(ctx, spec, report=True):
     data = {"check": "merge", "spec": spec}
     sig, text, out = None, "", None
     try:
-        with warnings.catch_warnings():
-            warnings.simplefilter("ignore")
-            compiled = prog.compile(compiler="gaussian_merge")
+        compiled, _inner = compile_merge_observed(prog)
+    except CompileTimeout:
+        compiled = None
+        sig = "gaussian_merge:hang"
+        text = "gaussian_merge did not return within %d s (the merge loop does not terminate)" % MERGE_TIME_LIMIT
     except CircuitError:
         if all(accepted("gaussian_merge", c[0]) for c in spec["cmds"]):
             sig, text = "gaussian_merge:rejects-accepted-circuit", "CircuitError on a circuit of accepted operations"
@@ -869,6 +1015,13 @@ def check_merge_case(ctx, spec, report=True):
         compiled = None
         sig = "gaussian_merge:crash:%s@%s" % (type(e).__name__, sf_frame(e))
         text = "gaussian_merge raised %s in %s (%s) instead of compiling or raising CircuitError" % (type(e).__name__, sf_frame(e), str(e)[:120])
+        if isinstance(e, IndexError):
+            # the recorded finding is ONLY: the inner GaussianUnitary.compile returned [] (merged block = identity
+            # with no displacement left) and that empty list was indexed; any other IndexError is something else
+            last = getattr(e, "_inner", [None])[-1] if getattr(e, "_inner", None) else None
+            if last != []:
+                sig += ":inner-result-not-empty"
+                text += " (last inner compile returned %r)" % (last,)
     if compiled is not None:
         out = spec_of_circuit(compiled.circuit)
         used = used_modes_of(spec["cmds"])
@@ -887,22 +1040,20 @@ def check_merge_case(ctx, spec, report=True):
                 dec = spec_of_circuit(compiler_db["gaussian_merge"]().decompose(prog.circuit))
                 wires_ok = all(wire_projection(dec, w) == wire_projection(out, w) for w in used)
                 total_ok = channels_close(hybrid_channel(spec["cmds"], used, "identity"), hybrid_channel(out, used, "identity"), 1e-6)
+                tsrc, tdst = hybrid_channel(spec["cmds"], used, "identity"), hybrid_channel(out, used, "identity")
+                symp_ok = (np.allclose(src[0], dst[0], atol=1e-6, rtol=0) and np.allclose(src[1], dst[1], atol=1e-6, rtol=0)
+                           and np.allclose(tsrc[0], tdst[0], atol=1e-6, rtol=0))
                 if not wires_ok:
                     cls = "nongaussian-order-changed"
                 elif total_ok:
                     cls = "misplaced-block"
+                elif symp_ok:
+                    # every symplectic part is right (with and without the non-Gaussian stand-ins) but the total
+                    # displacement content differs: displacement gates were lost, duplicated or changed
+                    cls = "displacement-lost"
                 else:
                     cls = "wrong-block-content"
                 sig = "gaussian_merge:%s:%s" % (fam, cls)
-                if not spec.get("_variant") and any(c[3] for c in spec["cmds"] if c[0] not in NONGAUSS):
-                    # diagnostic: does the failure disappear when the dagger flags of Gaussian gates are stripped
-                    # (same DAG, so the surgery behaves identically)?  Then merged blocks mishandle the flag --
-                    # the defect repaired by f18521d; it is NOT a recorded finding any more.
-                    # (No such test for mode relabelling: the DAG tie-breaking legitimately depends on labels.)
-                    v = {"N": spec["N"], "_variant": True,
-                         "cmds": [[n_, p_, ms_, (d_ if n_ in NONGAUSS else False)] for n_, p_, ms_, d_ in spec["cmds"]]}
-                    if check_merge_case(ctx, v, report=False)[0] in (None, "gaussian_merge:crash:IndexError@merge_a_gaussian_op"):
-                        sig, cls = "gaussian_merge:dagger-ignored", "dagger flags of merged Gaussian gates dropped"
                 text = ("compiled hybrid circuit is not equivalent to the source (non-Gaussian gates replaced by generic "
                         "stand-ins; channel distance %.3g); class %s" % (channel_dist(src, dst), cls))
     if sig and sig.startswith("gaussian_merge:crash"):
@@ -1088,16 +1239,20 @@ def search(ctx):
     n_merge = ctx.budget(300, 3500)
     found = {}
     vcases = []
-    for i in range(n_merge):
-        spec = rand_hybrid(rng)
+    # deterministic sweep of identity-symplectic blocks with displacement (same circuits on every run), then random
+    # hybrids; every third random case is built around G ; displacements ; G^-1 blocks
+    todo = [("sweep", sp) for sp in conj_sweep()]
+    todo += [("random", rand_conj_circuit(rng) if i % 3 == 2 else rand_hybrid(rng)) for i in range(n_merge)]
+    for origin, spec in todo:
         before = len(ctx.issues)
         sig, text, out = check_merge_case(ctx, spec)
         if out is not None:
             dec = spec_of_circuit(compiler_db["gaussian_merge"]().decompose(build_program(spec).circuit))
             vcases.append((spec, dec, out, sig))
         fam = merge_family(spec)
-        ctx.case({"compiler": "gaussian_merge", "spec": spec, "outcome": sig or "ok"}, nontrivial=fam in ("hybrid-multimode", "block-then-nongaussian"),
-                 bucket="merge-%s-%s" % (fam, (sig or "ok").replace("gaussian_merge:", "")))
+        conj = any(c[0] in ("Dgate", "Xgate", "Zgate") for c in spec["cmds"]) and any(c[3] or isinstance(c[1][0] if c[1] else 0, dict) for c in spec["cmds"])
+        ctx.case({"compiler": "gaussian_merge", "spec": spec, "outcome": sig or "ok"}, nontrivial=fam in ("hybrid-multimode", "block-then-nongaussian") or conj,
+                 bucket="merge-%s-%s-%s" % (origin, fam, (sig or "ok").replace("gaussian_merge:", "")))
         if sig and sig not in found:
             found[sig] = True
             small = shrink(spec, lambda s2, sig=sig: check_merge_case(_Quiet(), s2, report=False)[0] == sig)
